@@ -243,8 +243,11 @@ pub fn all() -> Vec<Prop> {
             id: "C14",
             level: "exploration",
             rule: "one evaluation = two real Mux endpoints over a SimPipe pair with random capability sets, unequal stream limits (0-4, some capabilities one-sided), tiny frame/buffer/frame-count limits, and 1-3 application workers per queue opening / accepting streams, writing self-describing data in chunks with flushes, reading completely, slowly, partially or not at all; oracles: pairing bijection, in-order complete data, EOS only after the counterpart closed, held streams <= min(limits), unconsumed payload <= read_buffer_size at every step; non-trivial = at least two stream uses; distinct = distinct event-log fingerprint",
-            batches: |t| vec![Batch { engine: "pipe", mode: "mux", runs: if t == "thorough" { 60_000 } else { 1500 } }],
-            expected_probes: || vec!["read_buffer_filled_to_the_limit"],
+            batches: |t| vec![
+                Batch { engine: "pipe", mode: "mux", runs: if t == "thorough" { 60_000 } else { 1500 } },
+                Batch { engine: "pipe", mode: "muxflood", runs: if t == "thorough" { 10_000 } else { 300 } },
+            ],
+            expected_probes: || vec!["read_buffer_filled_to_the_limit", "frame_count_limit_reached"],
             components: || json!({
                 "real": ["network::mux (Mux::run, handshake, reusable / transient streams, StreamQueue, permits) via hook H4", "network::frame", "concurrency (scope, limiter, channels, ExclusiveLock)"],
                 "stub": ["transport (SimPipe)", "applications (generated worker scripts)", "clock, scheduler choice"],
